@@ -1,10 +1,10 @@
 SPECIFICATION MCSpec
 CONSTANTS
   Parts = {0, 1}
-  SubIds = {"s1"}
+  SubIds = {"s1", "s2"}
   NilFix = TRUE
-  MaxOps = 5
-  MaxMsgs = 2
+  MaxOps = 6
+  MaxMsgs = 3
   Paths <- AllPaths
   Gates <- AllGates
   Cfgs <- AllCfgs
